@@ -238,6 +238,50 @@ def _used_as_offset(loop, var):
     return False
 
 
+def _walk_start(fn, loop, var, env, lkey):
+    """A walk over the 'q' / 's' blocks of a stacked cone vector whose offset is initialised,
+    right before the loop, from `dims`: the start must be where the preceding blocks end
+    ([mnl +] dims['l'] for 'q', [mnl +] dims['l'] + sum(dims['q']) for 's')."""
+    it = pf.norm_expr(loop.iter)
+    which = "s" if it in ("dims['s']",) else "q" if it in ("dims['q']",) else None
+    if which is None:
+        mm = None
+        if isinstance(loop.iter, ast.Call) and pf.call_name(loop.iter) == "range" and len(loop.iter.args) == 1:
+            mm = pf.norm_expr(loop.iter.args[0])
+        which = "s" if mm == "len(dims['s'])" else "q" if mm == "len(dims['q'])" else None
+    if which is None:
+        return None
+    par = getattr(loop, "_parent", None)
+    blk = None
+    for f_ in ("body", "orelse", "finalbody"):
+        b_ = getattr(par, f_, None)
+        if isinstance(b_, list) and any(x is loop for x in b_):
+            blk = b_
+    if blk is None:
+        return None
+    idx = [i for i, x in enumerate(blk) if x is loop][0]
+    init = None
+    for s_ in reversed(blk[:idx]):
+        if any(isinstance(x, ast.Name) and x.id == var and isinstance(x.ctx, ast.Store) for x in ast.walk(s_)):
+            if isinstance(s_, ast.Assign) and len(s_.targets) == 1 and isinstance(s_.targets[0], ast.Name) and s_.targets[0].id == var:
+                init = s_
+            break
+    if init is None or "dims" not in pf.names_in(init.value):
+        return None
+    P = from_pyast(init.value, env)
+    if P is None:
+        return None
+    base = Poly.sym("dims['l']") + (Poly.sym("sum(dims['q'])") if which == "s" else Poly.const(0))
+    key = lkey + ":start"
+    rest = P - base
+    # anything that does not involve dims (mnl, an offset argument) may be added to the block end
+    if not any("dims" in sname for sname in rest.symbols()):
+        return Finding("ok", key, init, "walk over the '%s' blocks starts at %r" % (which, P))
+    return Finding("violation", key, init,
+                   "the walk over the '%s' blocks starts at `%s`, which is not where the preceding blocks of the stacked vector end"
+                   % (which, pf.norm_expr(init.value)), "[mnl / offset +] %r" % base, pf.norm_expr(init.value))
+
+
 def _alias_env(fn):
     """single-assignment integer aliases usable in polynomials: `ml = dims['l']` etc. are
     left symbolic; only names assigned exactly once from a Name/Subscript are unfolded."""
@@ -316,6 +360,9 @@ def analyze(fn, mod, qual=None):
         # only variables that are used as offsets are offsets (not lists/strings/counters)
         if not accesses:
             continue
+        st_ = _walk_start(fn, loop, var, env, lkey)
+        if st_ is not None:
+            res.append(st_)
         decided = []
         fills = []
         for node, what, shift, E, why in accesses:
